@@ -7,8 +7,6 @@ package main
 
 import (
 	"bytes"
-	"crypto/sha256"
-	"encoding/hex"
 	"encoding/json"
 	"errors"
 	"fmt"
@@ -130,6 +128,52 @@ func (s *hoState) clientUDP(a, cs int, tag string) {
 		"opened": 1, "closed": 1, "e0": e0, "s1": s1})
 }
 
+// straddle: a connection made inside the hand-over window whose handshake bytes arrive only after the reload has
+// completed.  Whichever generation accepted it must still authenticate a key that both configurations have.
+type hoStraddle struct {
+	a, cs int
+	conn  net.Conn
+	e0    int64
+}
+
+func (s *hoState) openStraddle(a, cs int) *hoStraddle {
+	e0 := s.ended.Load()
+	c, err := vDial(s.h.u.dialAddr(a))
+	if err != nil {
+		return nil // not listening (or refused): the window clients report that
+	}
+	return &hoStraddle{a: a, cs: cs, conn: c, e0: e0}
+}
+
+func (s *hoState) finishStraddle(st *hoStraddle) {
+	if st == nil {
+		return
+	}
+	k := vKeys[vClassKey[st.cs]]
+	c := st.conn
+	me := c.LocalAddr().String()
+	c.Write(vClientHello(k, "127.0.0.1:9", nil))
+	c.(*net.TCPConn).CloseWrite()
+	var rec *vTCPRec
+	ok := s.m.waitFor(5*time.Second, func() bool { rec = s.m.tcp[me]; return rec != nil && rec.closed })
+	c.SetReadDeadline(time.Now().Add(3 * time.Second))
+	io.Copy(io.Discard, c)
+	c.Close()
+	res, id, status, opened, closed := "unhandled", 0, "", 0, 0
+	if ok {
+		time.Sleep(time.Millisecond)
+		s.m.mu.Lock()
+		id, status, opened, closed = vIDNum[rec.authed], rec.status, rec.opened, rec.nclosed
+		s.m.mu.Unlock()
+		res = "noauth"
+		if id != 0 {
+			res = "auth"
+		}
+	}
+	s.h.emit(map[string]any{"ev": "Client", "proto": "tcp", "tag": "straddle", "a": st.a, "cs": st.cs, "res": res, "id": id, "status": status,
+		"opened": opened, "closed": closed, "e0": st.e0, "s1": s.started.Load()})
+}
+
 // ---- long-lived relays ---------------------------------------------------------------------------------------
 type hoSink struct {
 	ln      net.Listener
@@ -190,6 +234,11 @@ type hoRelay struct {
 	werr  error
 	total int64
 	born  int64
+	// echo reader of the mid-transfer relay
+	rerr    error
+	rdone   chan struct{}
+	matched int64
+	rest    []byte
 }
 
 func (s *hoState) openRelay(sk *hoSink, kind string, a, cs int, n int) *hoRelay {
@@ -219,7 +268,8 @@ func (s *hoState) openRelay(sk *hoSink, kind string, a, cs int, n int) *hoRelay 
 	c.SetReadDeadline(time.Time{})
 	switch kind {
 	case "mid":
-		// keep transferring while the reload happens: writer and echo reader run until stopped
+		// keep transferring while the reload happens: a writer sends a known pattern, a reader consumes the echo
+		// all the time (otherwise the socket buffers fill up and everybody blocks)
 		r.wg.Add(1)
 		go func() {
 			defer r.wg.Done()
@@ -236,6 +286,28 @@ func (s *hoState) openRelay(sk *hoSink, kind string, a, cs int, n int) *hoRelay 
 				}
 				atomic.AddInt64(&r.total, int64(len(chunk)))
 				time.Sleep(200 * time.Microsecond)
+			}
+		}()
+		r.rdone = make(chan struct{})
+		go func() {
+			defer close(r.rdone)
+			pat := []byte("0123456789abcdef")
+			buf := make([]byte, 32<<10)
+			for {
+				n, err := r.r.Read(buf)
+				for _, b := range buf[:n] {
+					if len(r.rest) == 0 && b == pat[r.matched%16] {
+						r.matched++
+					} else if len(r.rest) < 64 {
+						r.rest = append(r.rest, b)
+					}
+				}
+				if err != nil {
+					if err != io.EOF {
+						r.rerr = err
+					}
+					return
+				}
 			}
 		}()
 	case "half":
@@ -286,20 +358,22 @@ func (s *hoState) finishRelay(sk *hoSink, r *hoRelay) {
 			fail("write during reload: %v", r.werr)
 		}
 		total := atomic.LoadInt64(&r.total)
-		// read back exactly what was written
-		h := sha256.New()
-		want := sha256.New()
-		chunk := bytes.Repeat([]byte("0123456789abcdef"), 256)
-		for i := int64(0); i < total; i += int64(len(chunk)) {
-			want.Write(chunk)
-		}
-		if _, err := io.CopyN(h, r.r, total); err != nil {
-			fail("echo of %d bytes: %v", total, err)
-		} else if hex.EncodeToString(h.Sum(nil)) != hex.EncodeToString(want.Sum(nil)) {
-			fail("echo digest differs after %d bytes", total)
-		}
 		r.conn.CloseWrite()
-		expectTail()
+		sk.mu.Lock()
+		close(sk.release[r.tok])
+		sk.mu.Unlock()
+		select {
+		case <-r.rdone:
+		case <-time.After(15 * time.Second):
+			fail("echo of %d bytes did not complete within 15s (got %d)", total, r.matched)
+		}
+		if ok {
+			if r.rerr != nil {
+				fail("reading the echo: %v", r.rerr)
+			} else if r.matched != total || string(r.rest) != "TAIL" {
+				fail("echo differs: sent %d pattern bytes, got %d then %q", total, r.matched, r.rest)
+			}
+		}
 	case "half":
 		got := make([]byte, 1)
 		if _, err := io.ReadFull(r.r, got); err != nil || got[0] != 'x' {
@@ -393,6 +467,7 @@ func (h *vHarness) runHandover(sc vScenario, sk *hoSink) {
 		}
 	}
 	var carried []*hoRelay // relays kept across more than one reload
+	var straddles []*hoStraddle
 	steps := sc.Steps
 	if sc.Mode == "hammer" {
 		// free-running clients see more reloads: the sequence of configurations is cycled
@@ -435,6 +510,13 @@ func (h *vHarness) runHandover(sc vScenario, sk *hoSink) {
 				select {
 				case name := <-gateHit:
 					h.emit(map[string]any{"ev": "Window", "stage": name})
+					if name == "started" {
+						for a := 1; a <= len(h.u.ports); a++ {
+							for cs := 1; cs <= len(vClassKey); cs++ {
+								straddles = append(straddles, s.openStraddle(a, cs))
+							}
+						}
+					}
 					for a := 1; a <= len(h.u.ports); a++ {
 						for cs := 1; cs <= len(vClassKey); cs++ {
 							s.clientTCP(a, cs, "window-"+name)
@@ -450,6 +532,10 @@ func (h *vHarness) runHandover(sc vScenario, sk *hoSink) {
 		}
 		err := <-done
 		verifReloadGate = nil
+		for _, st := range straddles {
+			s.finishStraddle(st)
+		}
+		straddles = nil
 		s.ended.Add(1)
 		h.emit(map[string]any{"ev": "LoadEnd", "n": s.ended.Load(), "ok": err == nil, "err": fmt.Sprint(err)})
 		if err == nil {
